@@ -449,7 +449,7 @@ func (r *RefCount[T]) resolve(ctx context.Context, waitCh, doneCh chan struct{},
 			}
 		}
 
-		verifhook.Lock(r)
+		verifhook.TryLock(r)
 		if r.mtx.TryLock() {
 			resolveAfterRelease(false)
 		} else {
